@@ -58,6 +58,11 @@ pub enum Step {
     /// View entries for other node ids.
     WriteAcl { ctx: Ctx, n: u8 },
     RemoveFabric { ctx: Ctx, idx: u8 },
+    /// Write GroupKeyManagement::GroupKeyMap of the writer's fabric: group `0x0100 + g` -> key set 0x01A3.
+    GroupKeyMap { ctx: Ctx, g: u8 },
+    /// Groups::AddGroup(endpoint 1, group `0x0100 + g`, name "grp-<name>"): adds the endpoint
+    /// to the group, or renames the group if it is a member already.
+    AddGroup { ctx: Ctx, g: u8, name: u8 },
     /// Establish (or resume) a CASE session as admin A / B.
     Case { fab_b: bool },
     /// Remember the current CASE session of A / B in a slot (to use it later when stale).
@@ -758,6 +763,24 @@ async fn do_step<C: Crypto, G: Crypto>(
                 // AccessControl (0x1F) ACL (0)
                 ctl.write_attr(v, 0, 0x1F, 0, &entries.as_slice()).await
             }
+            None => no_ctx,
+        },
+        Step::GroupKeyMap { ctx, g } => match via(*ctx) {
+            Some(v) => {
+                #[derive(rs_matter::tlv::ToTLV)]
+                #[tlvargs(start = 1)]
+                struct MapEntry {
+                    group_id: u16,
+                    group_key_set_id: u16,
+                }
+                let map = [MapEntry { group_id: 0x0100 + *g as u16, group_key_set_id: 0x01A3 }];
+                // GroupKeyManagement (0x3F) GroupKeyMap (0)
+                ctl.write_attr(v, 0, 0x3F, 0, &&map[..]).await
+            }
+            None => no_ctx,
+        },
+        Step::AddGroup { ctx, g, name } => match via(*ctx) {
+            Some(v) => ctl.add_group(v, 0x0100 + *g as u16, &format!("grp-{}", name)).await,
             None => no_ctx,
         },
         Step::RemoveFabric { ctx, idx } => match via(*ctx) {
